@@ -112,7 +112,11 @@ type outcome struct {
 
 // runOnce replays the scenario with a crash armed at crashes[i] during crashable step i
 // (step 0 = victim, then the After steps). crashes[i] == ops(step) means "die right after the step".
-func runOnce(sc Scenario, crashes []int, dir string) outcome {
+func runOnce(sc Scenario, crashes []int, dir string, io ...int) outcome {
+	ioK := -1
+	if len(io) > 0 {
+		ioK = io[0]
+	}
 	out := outcome{}
 	p, err := pw.New(world.NodeOpts{ChainID: "c04-chain", InitialHeight: sc.InitialHeight, RootDir: dir, RefExec: sc.RefExec})
 	if err != nil {
@@ -179,6 +183,10 @@ func runOnce(sc Scenario, crashes []int, dir string) outcome {
 		if armed {
 			p.Raw.ArmCrashAfter(crashes[i])
 		}
+		ioVictim := ioK >= 0 && i == 0
+		if ioVictim {
+			p.Raw.ArmErrorAfter(ioK) // this write fails with an I/O error; the process lives on
+		}
 		r := p.Step(st)
 		p.Raw.Disarm()
 		if r.Panic != nil {
@@ -186,6 +194,31 @@ func runOnce(sc Scenario, crashes []int, dir string) outcome {
 			return out
 		}
 		n := p.Raw.Ops() - start
+		if ioVictim {
+			if lg := p.Raw.Log(start); len(lg) > ioK {
+				out.crashAt = "io-error:" + opClass(lg[ioK])
+			}
+			out.ops = append(out.ops, n)
+			if r.Err != nil {
+				// block production gave up: the aggregation loop reports the error, FullNode.Run shuts the node
+				// down and it is started again on what is on disk
+				if err := p.RestartOn(world.FromImage(p.Raw.Image())); err != nil {
+					out.v = world.Fail("C04/restart-fails/"+out.crashAt, "node cannot start after a failed write (%s): %v", out.crashAt, err)
+					return out
+				}
+				crashedBefore = true
+			}
+			if pr := p.Oracle(fmt.Sprintf("after the step with a failed write (%s)", out.crashAt), false, false); pr != nil {
+				out.v = world.Fail("C04/"+pr.Sig, "%s", pr.Msg)
+				return out
+			}
+			if pr := checkPinned(fmt.Sprintf("after the step with a failed write (%s)", out.crashAt)); pr != nil {
+				out.v = world.Fail("C04/"+pr.Sig, "%s", pr.Msg)
+				return out
+			}
+			pin()
+			continue
+		}
 		if !r.Crashed {
 			out.ops = append(out.ops, n)
 			if crashedBefore || i > 0 {
@@ -283,8 +316,18 @@ func run(sc Scenario, dir string) world.Verdict {
 			}
 		}
 	}
+	// the same boundaries with a write that FAILS (I/O error) instead of a process death
+	ioRuns := 0
+	for k := 0; k < n0; k++ {
+		o := runOnce(sc, nil, dir, k)
+		ioRuns++
+		if o.v.Violation != "" {
+			return o.v
+		}
+		classes[o.crashAt] = true
+	}
 	v := world.OK(inside > 0 && nested > 0, fmt.Sprintf("victim-ops=%d", n0), "victim:"+sc.Victim.Seq.Kind)
-	v.Counts = map[string]int{"crash-runs": runs, "nested-crash-runs": nested}
+	v.Counts = map[string]int{"crash-runs": runs, "nested-crash-runs": nested, "io-error-runs": ioRuns}
 	for c := range classes {
 		v.Labels = append(v.Labels, "crash-before:"+c)
 	}
